@@ -309,6 +309,11 @@ func (r *Raft) onInstallSnapRequest(req *installSnapReq, c *conn) (rpcResult, er
 	}
 	verifPoint(r, "isnap.stored")
 
+	// fsm goroutine may still have to read log entries through the
+	// log views queued for it. wait for it, before log segments are
+	// unmapped by compaction or reset
+	_ = r.lastApplied()
+
 	discardLog := true
 	if r.storage.log.Contains(meta.index) {
 		metaTerm, err := r.storage.getEntryTerm(meta.index)
